@@ -114,5 +114,20 @@ def contract(c):
     c.cover_depth = 12
 
 
+# ------------------------------------------------------------------------------------------------ caller side
+def physical_layer_wiring(c):
+    """USB3PhysicalLayer.elaborate() (real parent, open PIPE interface, every interface signal a free input; see
+    c31.PhysicalLayerUnits): the CTCSkipRemover instance takes a PHY receive word every cycle, its downstream (the word aligner) is
+    always ready - the statement's 'as it is wired in the physical layer', i.e. the unit contract's require - its output is the
+    word aligner's input, and its diagnostic outputs are the layer's."""
+    from .c31_scrambling import PhysicalLayerUnits, lemmas_receive_chain_head
+    U = PhysicalLayerUnits(c)
+    lemmas_receive_chain_head(c, U)
+    c.lemma("layer_diagnostics_are_the_skip_removers",
+            z3.And(U.S(U.d.skip_removed, U.rx_ctc.skip_removed), U.shows(U.d.ctc_bytes_in_buffer, U.rx_ctc.bytes_in_buffer)),
+            clause="(diagnostic outputs) the layer's skip_removed / ctc_bytes_in_buffer are the unit's (the latter zero-extended, never truncated)")
+
+
 def contracts(tier):
     yield ("CTCSkipRemover", "", contract)
+    yield ("USB3PhysicalLayer", "wiring_rx_ctc", physical_layer_wiring)
